@@ -302,11 +302,35 @@ def source(name):
         return exprs[0]
     plain = src == OUT  # the plain output skeleton keeps the expression unparenthesised
     for i in reversed(range(len(exprs))):
-        src = src.replace("@%d" % i, exprs[i] if plain else "(" + exprs[i] + ")")
+        src = src.replace("@%d" % i, exprs[i] if (plain or name in RAW) else "(" + exprs[i] + ")")
     return src
 
 
 P = {}
+class Box:
+    """Subscriptable by anything: shows which index or slice bounds reached it."""
+
+    def __getitem__(self, k):
+        if isinstance(k, slice):
+            return ("slice", k.start, k.stop, k.step)
+        return ("item", k)
+
+
+BOX = Box()
+
+
+def _r_sub(E, v):
+    # {{ rec('r', bx[@0], bx[@1:], bx[:@2], bx[::@3], bx[@4, @5], bx[@6], bx[@7:@8]) }}
+    return [("r", BOX[E[0](v)], BOX[E[1](v):], BOX[:E[2](v)], BOX[::E[3](v)], BOX[E[4](v), E[5](v)], BOX[E[6](v)], BOX[E[7](v):E[8](v)])]
+
+
+SKELS["subscript"] = ("{{ rec('r', bx[@0], bx[@1:], bx[:@2], bx[::@3], bx[@4, @5], bx[@6], bx[@7:@8]) }}",
+                      ["-1", "-2", "-1", "-1", "0", "-1", "-a", "+2", "1 - 2"], _r_sub)
+RAW = {"subscript"}   # placeholders substituted without parentheses: literal operands directly in subscript position
+MODE_A.append("subscript")
+GROUPS[3].append("subscript")
+TREES["subscript"] = [parse_expr(e) for e in SKELS["subscript"][1]]
+
 SK = "addsub"
 REL = []
 CACHE = {}
@@ -368,9 +392,9 @@ def run(name, key, a, b, c):
         if kind == "expr":
             rec("r", t(a=a, b=b, c=c))
         elif P.get("asyncm"):
-            drive(t.render_async(a=a, b=b, c=c, xs=[a, b, c], rec=rec, kw=_kw))
+            drive(t.render_async(a=a, b=b, c=c, xs=[a, b, c], rec=rec, kw=_kw, bx=BOX))
         else:
-            t.render(a=a, b=b, c=c, xs=[a, b, c], rec=rec, kw=_kw)
+            t.render(a=a, b=b, c=c, xs=[a, b, c], rec=rec, kw=_kw, bx=BOX)
     except Exception as e:
         out = type(e).__name__
     return (out, rec.log, list(LOG)), (eout, erec, elog)
